@@ -170,3 +170,20 @@ Example c05_ex :
   /\ r2 = value_block false (k, {| i_flags := 0; i_exp := 0; i_data := [49; 48]; i_cas := 3 |}) ++ L_END ++ L_crlf ++ L_NOT_STORED ++ L_crlf
           ++ value_block false (k, {| i_flags := 0; i_exp := 0; i_data := [49; 48]; i_cas := 3 |}) ++ L_END ++ L_crlf.
 Proof. vm_compute. split; reflexivity. Qed.
+
+(* "noreply defaults per operation": what an operation does when the caller leaves noreply out is part of its contract (the model's
+   run_op takes the argument as given; eff_noreply resolves None to default_noreply; cas, incr and decr use the argument as it is).
+   The signature defaults are read from base.py on every run (Gen/Wrappers.v): cas, incr and decr wait for their reply unless told
+   otherwise, every other storing or deleting operation follows default_noreply. *)
+From Coq Require Import String.
+From PM Require Import Gen.Wrappers.
+Definition noreply_default (meth : string) : option string :=
+  match find (fun r => String.eqb (fst r) meth) client_sigs with
+  | Some (_, params) => match find (fun p => String.eqb (fst p) "noreply"%string) params with Some (_, d) => Some d | None => None end
+  | None => None end.
+Theorem c05_noreply_defaults :
+  map noreply_default ["cas"; "incr"; "decr"]%string = [Some "False"; Some "False"; Some "False"]%string /\
+  map noreply_default ["set"; "set_many"; "add"; "replace"; "append"; "prepend"; "delete"; "delete_many"; "touch"]%string
+  = repeat (Some "None"%string) 9.
+Proof. split; reflexivity. Qed.
+Print Assumptions c05_noreply_defaults.
